@@ -125,6 +125,26 @@ PROPS = {
              "semantics of cmpeq/movemask/cmpgt/or; harness/hooks. NEON/LSX back-ends cannot be built here and are not covered; "
              "big-endian to_le path not tied.",
     ),
+    "C01": dict(
+        module="Hb.Props.C01",
+        ties=[("scen", "grow", 150, 4000), ("scen", "churn", 250, 8000), ("scen", "saturate", 120, 4000),
+              ("scen", "mixed", 300, 10000), ("scen", "entry", 200, 6000), ("scen", "entry-full", 100, 4000), ("t1", {})],
+        backends=["sse2", "portable"],
+        design="§7 C01",
+        text="Lean refinement theorem (history_refines): for every deterministic hash function (Lawful env H: any H, incl. "
+             "all-colliding), every history of insert/get/get_mut/contains/remove/remove_entry/clear/reserve/try_reserve/"
+             "shrink/retain from new(), both scanners, all table sizes: returns are related call by call to an association-"
+             "list trace and the final contents are a permutation of the abstract map with distinct keys; insert keeps the "
+             "originally stored key object; look-ups depend on the probe only through hash and Eq. Proved by induction over "
+             "the history with the invariant InvL (tag, reachability along the probe sequence, key distinctness), incl. "
+             "resize, in-place rehash and the tombstone rule. Tie: full state dump after every operation on generated "
+             "histories under 10 hash-plan families (mixed, const0, constMax, sequential, cluster, position x tag, lsb twins, "
+             "same position, same tag, group stride) x element layouts, forced in-place rehash (saturate), both builds; "
+             "direct oracle: reference association list + structural invariant on the real collection after every call.",
+        note="Trusted: Lean kernel, axioms propext/Classical.choice/Quot.sound; harness, hooks, protocol. try_insert, entry/"
+             "entry_ref, extend/from_iter are modelled (Hb/Model/Entry.lean) and tied + judged by the reference oracle, but "
+             "their refinement is not in history_refines (they reduce to find/insert paths proved here); listed as partial.",
+    ),
     "C04": dict(
         module="Hb.Props.C04",
         ties=[("scen", "panic-sat-nodrop", 6, 150), ("scen", "panic-sat-drop", 6, 150), ("scen", "panic-mixed", 8, 200)],
